@@ -18,7 +18,9 @@ A_FILES = {
 }
 B_FILES = {
     "src/b.f90": ("module b_mod\n  !! uses [[liba_core]] and [[shape_t]] and [[area]]\n  use liba_core\n  implicit none\n  type, extends(shape_t) :: square_t\n    !! extends the external type\n"
-                  "    type(shape_t) :: inner\n  end type square_t\ncontains\n  subroutine work(q)\n    type(square_t) :: q\n    real :: r\n    call make(q%inner)\n    r = area(q%inner)\n    r = gen(q%inner)\n    r = pi_ish\n  end subroutine work\nend module b_mod\n"),
+                  "    type(shape_t) :: inner\n  end type square_t\ncontains\n  subroutine work(q)\n    type(square_t) :: q\n    real :: r\n    call make(q%inner)\n    r = area(q%inner)\n    r = gen(q%inner)\n    r = pi_ish\n  end subroutine work\n"
+                  "  subroutine local_wins()\n    !! has an internal procedure named like one of A's\n    call make()\n  contains\n    subroutine make()\n      !! the internal one\n    end subroutine make\n"
+                  "  end subroutine local_wins\nend module b_mod\n"),
     "src/utils.f90": "module utils\n  !! B's own utils\n  implicit none\n  type :: vec_t\n    real :: y\n  end type vec_t\ncontains\n  function norm(v) result(n)\n    type(vec_t) :: v\n    real :: n\n    n = v%y\n  end function norm\nend module utils\n",
     "src/h.f90": "subroutine helper()\n  !! B's own helper, see [[helper]]\nend subroutine helper\n",
     "src/p.f90": "program main\n  !! see [[utils]] and [[vec_t]] and [[norm]] and [[helper]]\n  use utils\n  use b_mod\n  type(vec_t) :: v\n  type, extends(vec_t) :: vv\n  end type vv\n  print *, norm(v)\nend program main\n",
@@ -94,7 +96,7 @@ def check_export(adoc):
 LINK = re.compile(r'<a\b[^>]*\bhref="([^"]+)"[^>]*>(.*?)</a>', re.S)
 
 
-def check_b_links(bdoc, adoc, must_be_external, must_be_local):
+def check_b_links(bdoc, adoc, must_be_external, must_be_local, no_external_on=()):
     bad, ext_seen, n_ext = [], {}, 0
     bdoc, adoc = os.path.realpath(bdoc), os.path.realpath(adoc)
     for d, _, ff in os.walk(bdoc):
@@ -111,10 +113,12 @@ def check_b_links(bdoc, adoc, must_be_external, must_be_local):
                 t = os.path.normpath(os.path.join(os.path.dirname(p), urllib.parse.unquote(u.path)))
                 rel = os.path.relpath(p, bdoc)
                 if t.startswith(bdoc + os.sep) or t == bdoc:
-                    if label.lower() in must_be_external and os.path.basename(t).startswith(label.lower() + "."):
-                        pass
+                    if not os.path.exists(t):
+                        bad.append(f"{rel}: link {url!r} ({label}) points to {os.path.relpath(t, bdoc)} in B's own tree, which was not written")
                     continue
                 n_ext += 1
+                if rel in no_external_on:
+                    bad.append(f"{rel}: '{label}' is linked to {url!r} outside B although everything this page refers to is defined by B itself")
                 if not t.startswith(adoc + os.sep):
                     bad.append(f"{rel}: link {url!r} ({label}) leaves both documentation trees")
                     continue
@@ -155,7 +159,7 @@ def end_to_end():
                     return bad + [f"building B against A failed: {sbst}"], 0
                 b2, n = check_b_links(os.path.join(pb, "doc"), adoc,
                                       {"liba_core": "module/liba_core.html", "shape_t": "type/shape_t.html", "area": "proc/area.html", "make": "proc/make.html"},
-                                      {"utils", "vec_t", "norm", "b_mod", "square_t", "work", "helper"})
+                                      {"utils", "vec_t", "norm", "b_mod", "square_t", "work", "helper"}, no_external_on=("proc/local_wins.html",))
                 return bad + b2, n
     finally:
         shutil.rmtree(sb, ignore_errors=True)
